@@ -334,3 +334,14 @@ def c18_reuse(ctx, case):
     ctx.check(np.array_equal(np.asarray(e3), keep_e) and np.array_equal(np.asarray(v3), keep_v),
               "dpss(%d, %r, %r) returns different values after the eigenvalues returned by pmtm were modified in place" % (N, NW, k),
               sig={"clause": "reuse"})
+
+
+# ---- call-form invariance (documented parameter names) ----------------------------
+from vlib import kwcheck as _kw   # noqa: E402
+
+
+@sub("C18.keywords", strategy=_kw.kw_case(_kw.PROPS["C18"]), quick=200, thorough=4000,
+     doc="the same call with its trailing arguments given by their documented names (any split, any order) returns the same "
+         "result as the positional call, and every documented name is accepted: " + ", ".join(_kw.PROPS["C18"]))
+def c18_keywords(ctx, case):
+    _kw.body(ctx, case)
